@@ -46,6 +46,10 @@ def configs(ctx):
     out.append(("sym", 3, "plus", 0, "wf", 6, 1.5, 1, False, False))
     out.append(("sym", 4, "plus", 0, "wf", 6 if q else 7, 2.5, 1, False, False))
     out.append(("sym", 4, "plus", 1, "wf", 6 if q else 7, 2.5, 1, False, False))
+    # old paths that were produced by another move type (they arrive through swaps)
+    out.append(("sym", 3, "plus", 1, "sh", 6, None, None, False, "wf"))
+    out.append(("sym", 3, "plus", 0, "wf", 6, None, 1, False, "sh"))
+    out.append(("sym", 3, "minus", 0, "sh", 6, None, None, False, "00"))
     # the origin of the axis is arbitrary: lambda_0 = 0.0, cap = 0.0, an inner interface = 0.0, everything negative
     out.append(("sym@-0.5", 3, "minus", 0, "sh", 5, None, None, False, False))
     out.append(("sym@-0.5", 3, "plus", 0, "sh", 5, None, None, False, False))
@@ -82,6 +86,10 @@ def _job(args):
 
         def patched(*a, **k):
             return fn_old(*a, **k)
+    if isinstance(ld, str):
+        # the old path carries the label of another move (it arrived in this ensemble through swaps)
+        kw["old_label"] = ld
+        ld = False
     with lat.shifted(shift_of(name)):
         K, recs, n = moves.kernel(dyn, kind, i, old, M, **kw) if not ld else _kernel_ld(dyn, kind, i, old, M)
     bad = []
@@ -212,7 +220,7 @@ def run(ctx):
     n_pairs = 0
     for cfg, Ks in kernels.items():
         name, B, kind, i, move, M, cap, nj, allowmax, ld = cfg
-        if move != "sh" or allowmax or ld:
+        if move != "sh" or allowmax or ld is True:
             continue
         dyn = mkdyn(name, B)
         S = sorted(Ks)
@@ -304,20 +312,21 @@ def _replay(data):
         if kind == "exec":
             from vf.explore import Chooser
 
-            if ld:
+            if ld is True:
                 return [("replay-unsupported", "ld")]
-            fn = moves.shoot_fn(dyn, ek, i, old, M, move=move, cap=cap, n_jumps=nj, allowmaxlength=allowmax)
+            fn = moves.shoot_fn(dyn, ek, i, old, M, move=move, cap=cap, n_jumps=nj, allowmaxlength=allowmax,
+                                old_label=ld if isinstance(ld, str) else None)
             r = fn(Chooser(data["choices"]))
             for code, text in r["clauses"]:
                 out.append((f"{move}:{code}:{ek}{i}", text))
         elif kind == "idx":
-            K, recs, n = moves.kernel(dyn, ek, i, old, M)
+            K, recs, n = moves.kernel(dyn, ek, i, old, M, old_label=ld if isinstance(ld, str) else None)
             idxs = sorted({r["idx"] for r in recs if r.get("idx") is not None})
             if idxs != list(range(1, len(old) - 1)):
                 out.append((f"sh:shooting-index-range:{ek}{i}", str(idxs)))
         else:
             new = tuple(data["new"])
-            K, recs, n = moves.kernel(dyn, ek, i, old, M)
+            K, recs, n = moves.kernel(dyn, ek, i, old, M, old_label=ld if isinstance(ld, str) else None)
             ref = moves.ref_shoot_kernel(dyn, ek, i, old, new, M)
             if K.get(new, Fraction(0)) != ref:
                 out.append((f"sh:acceptance-law:{ek}{i}", f"{K.get(new, 0)} != {ref}"))
